@@ -1639,6 +1639,12 @@ impl<'a> Gen<'a> {
         self.fcx().lambda_count += 1;
         format!("lambda-{}", c)
     }
+    /// after an interpreter reset: no global survives
+    pub fn forget_globals(&mut self) {
+        self.scopes[0].clear();
+        self.classes.clear();
+        self.ranges.clear();
+    }
     pub fn loop_enter(&mut self) {
         self.fcx().loop_depth += 1;
     }
